@@ -29,8 +29,12 @@ class AV:
         self.HEAD = ("sub", self.EXT, ("const", 0))
         self.V = ("sub", self.EXT, ("const", 1))
         self.TAIL = ("sub", self.EXT, ("const", 2))
+        JSM = "netconan.utils.juniper_secrets"
         js = ("global", fn.module.name, "juniper_secrets")
-        self.DEC = ("call", ("attr", js, "juniper_decrypt"), (self.V,), ())
+        self.f_decrypt = ("global", JSM, "juniper_decrypt")
+        self.f_encrypt = ("global", JSM, "juniper_nonrandom_encrypt")
+        self.MAGIC = ("global", JSM, "MAGIC")
+        self.DEC = ("call", self.f_decrypt, (self.V,), ())
         self.FMT = ("call", ("global", fn.module.name, self.f_fmt.name), (self.V,), ())
         self.BASE_fmt = "netconanRemoved{}"
         self.BASE = ("call", ("attr", ("const", self.BASE_fmt), "format"), (("call", ("builtin", "len"), (self.lookup,), ()),), ())
@@ -45,7 +49,7 @@ class AV:
         return False
 
     def enc_jun(self, x):
-        return ("call", ("attr", self.js, "juniper_nonrandom_encrypt"), (x, self.salt), ())
+        return ("call", self.f_encrypt, (x, self.salt), ())
 
     def fmt_class(self, path):
         """Which format class do the path conditions select ('text' if all tests are false)?"""
@@ -199,7 +203,7 @@ def check_anonymize_value(ctx, rep, cl, focus=("flow", "lookup", "encoders", "co
         if anon == av.enc_jun(("sub", av.lookup, av.DEC)):
             n_dechit += 1
             ok = path.truth(("compare", ("in",), (av.DEC, av.lookup))) is True and not stores
-            ok = ok and path.truth(("call", ("attr", av.V, "startswith"), (("attr", av.js, "MAGIC"),), ())) is True
+            ok = ok and path.truth(("call", ("attr", av.V, "startswith"), (av.MAGIC,), ())) is True
             rep.ob(cl + ".decrypted-hit", fn.name, ok, "a $9$ value whose plaintext is known returns juniper_nonrandom_encrypt(lookup[plaintext], salt), without storing", w, key=cl + ".decrypted-hit|_anonymize_value")
             continue
         if ("sub", av.lookup, av.V) in list(subterms(anon)) or any(s[0] == "sub" and strip_mut(s[1]) == av.lookup for s in subterms(anon)):
@@ -218,14 +222,14 @@ def check_anonymize_value(ctx, rep, cl, focus=("flow", "lookup", "encoders", "co
         miss_ok = path.truth(("compare", ("in",), (av.V, av.lookup))) is False
         rep.ob(cl + ".miss-after-tests", fn.name, miss_ok, "a fresh pseudonym is allocated only after `value in lookup` failed", w, nontrivial=False)
         dec_truthy = path.truth(av.DEC)
-        attempted = path.truth(("call", ("attr", av.V, "startswith"), (("attr", av.js, "MAGIC"),), ()))
+        attempted = path.truth(("call", ("attr", av.V, "startswith"), (av.MAGIC,), ()))
         raised = any(t[0] == "except" for t, pol in path.atoms())
         if len(stores) != 1 or strip_mut(stores[0].a) != av.lookup:
             rep.fail(cl + ".miss-stores-once", fn.name, "miss path has %d lookup stores (%s); expected exactly one" % (len(stores), [repr(s)[:80] for s in stores]), w, key=cl + ".miss-stores-once|_anonymize_value")
             continue
         st = stores[0]
         if dec_truthy is True:
-            ok = st.b == av.DEC and st.c == ("call", ("attr", av.js, "juniper_decrypt"), (anon,), ())
+            ok = st.b == av.DEC and st.c == ("call", av.f_decrypt, (anon,), ())
             rep.ob(cl + ".store-by-plaintext", "%s[%s]" % (fn.name, klass), ok,
                    "decryptable $9$: stored %r; expected lookup[plaintext] = juniper_decrypt(pseudonym) (plaintext of the pseudonym, so clear text and $9$ spellings meet)" % (st,), w, key=cl + ".store-by-plaintext|_anonymize_value")
         else:
